@@ -1411,6 +1411,10 @@ BAD_KINDS = ["str", "None", "tensor2", "list"]
 TH_VERB = "C17_verbose_irrelevant_when_formattable, C17_verbose_run_irrelevant_when_formattable, C17_verbose_irrelevant_when_formattable_observable"
 
 
+class PatchRouteFailed(Exception):
+    """the monkey-patched route into ObservableEvaluator (private attributes) could not be installed"""
+
+
 def verbose_obj(tag):
     return {"True": True, "False": False, "1": 1, "np.True_": np.True_, "np0d": np.array(True), "t0d": torch.tensor(True)}[tag]
 
@@ -1445,6 +1449,35 @@ def value_canon(v):
     if isinstance(v, list):
         return ["list", v]
     return [type(v).__name__, repr(v)]
+
+
+def value_only(v):
+    """audit 3 (B14): the VALUE that was recorded, whatever Python type carries it (C17 says the records agree with the VALUES computed at
+    the epochs; the type of the stored object - float / numpy.float64 / 0-d tensor - is not constrained: compared with ctx.info only)"""
+    if isinstance(v, torch.Tensor):
+        l = [float(t) for t in v.reshape(-1).tolist()]
+        return l[0] if v.dim() == 0 else l
+    if isinstance(v, np.ndarray):
+        l = [float(t) for t in v.reshape(-1).tolist()]
+        return l[0] if v.ndim == 0 else l
+    if isinstance(v, (np.floating, np.integer, np.bool_)):
+        return float(v)
+    if isinstance(v, (bool, int, float)):
+        return float(v)
+    if v is None or isinstance(v, str):
+        return v
+    if isinstance(v, (list, tuple)):
+        return [value_only(x) for x in v]
+    return repr(v)
+
+
+def csv_by_name(rows):
+    """audit 3 (B8): the CSV log as records keyed by the header's column names (column POSITION is not constrained by C17; rows stay in
+    epoch order)"""
+    if not rows:
+        return []
+    hdr = rows[0]
+    return [sorted(hdr)] + [[len(r), sorted(zip(hdr, r))] for r in rows[1:]]
 
 
 def csv_line(cells):
@@ -1520,9 +1553,15 @@ def verbose_case(ctx, case):
             if case.get("composite"):
                 obs.append(-obs[0] + 2)
             ev = ObservableEvaluator(p, obs, verbose=vobj, log=path, num_samples=10)
-            keys = list(ev.system.observables.keys())
+            # audit 3 (B8): `ev.system.observables` / `ev.system.statistics` are private layout: when this scripted route cannot be
+            # installed (or is not the one the evaluator takes) the case is recorded with ctx.info and skipped, never an alarm
+            try:
+                keys = list(ev.system.observables.keys())
+            except Exception as ex:  # noqa: BLE001
+                raise PatchRouteFailed(type(ex).__name__)
 
             def scripted(nn_state, **kw):
+                cur["scripted_calls"] = cur.get("scripted_calls", 0) + 1
                 # what System.statistics returns: one dict per key, in key order; slot of observable i / statistic j = 3 i + j
                 out = {}
                 for k in keys:
@@ -1530,13 +1569,24 @@ def verbose_case(ctx, case):
                     out[k] = {st: values[token(cur["e"], 3 * i + j)] for j, st in enumerate(("mean", "variance", "std_error"))}
                     out[k]["num_samples"] = 10
                 return out
-            ev.system.statistics = scripted
+            try:
+                ev.system.statistics = scripted
+            except Exception as ex:  # noqa: BLE001
+                raise PatchRouteFailed(type(ex).__name__)
             return ev, (obs, idents)
 
         def run(vobj, tag):
             path = os.path.join(tmp, f"log_{tag}.csv") if case["log"] else None
-            ev, extra = build(vobj, path)
+            # audit 3 (B7): constructed under try - a validating constructor (non-`bool` verbose forms are outside the documented `bool`)
+            # must neither crash the harness nor alarm by itself
+            try:
+                ev, extra = build(vobj, path)
+            except PatchRouteFailed as ex:
+                return {"built": False, "patch": True, "exc": str(ex)}
+            except Exception as ex:  # noqa: BLE001
+                return {"built": False, "patch": False, "exc": type(ex).__name__}
             out, raised, at = io.StringIO(), None, None
+            cur["scripted_calls"] = 0
             for i, e in enumerate(epochs):
                 cur["e"] = i
                 try:
@@ -1546,15 +1596,40 @@ def verbose_case(ctx, case):
                     raised, at = type(ex).__name__, e
                     break
             rows = read_csv(path) if path else []
-            canon = (lambda d: {k: value_canon(v) for k, v in d.items()}) if kind == "metric" else \
-                (lambda d: {k: {s: value_canon(v) for s, v in sd.items()} for k, sd in d.items()})
-            state = {"len": len(ev), "epochs": [int(x) for x in ev.epochs], "last": canon(ev.last),
-                     "past": [[int(ep), canon(d)] for ep, d in ev.past_values], "csv": rows}
-            return {"ev": ev, "extra": extra, "state": state, "stdout": out.getvalue(), "raised": raised, "at": at}
+            # audit 3 (B14): the records are compared by VALUE; the Python type of the stored objects goes to ctx.info ("types")
+            def canon_with(f):
+                return (lambda d: {k: f(v) for k, v in d.items()}) if kind == "metric" else \
+                    (lambda d: {k: {s: f(v) for s, v in sd.items()} for k, sd in d.items()})
+            canon, tcanon = canon_with(value_only), canon_with(value_canon)
+            try:
+                state = {"len": len(ev), "epochs": [int(x) for x in ev.epochs], "last": canon(ev.last),
+                         "past": [[int(ep), canon(d)] for ep, d in ev.past_values], "csv": rows}
+                types = {"last": tcanon(ev.last), "past": [[int(ep), tcanon(d)] for ep, d in ev.past_values]}
+            except Exception as ex:  # noqa: BLE001
+                if kind == "observable":     # the scripted statistics' layout was not accepted: the patched route, not the property
+                    return {"built": False, "patch": True, "exc": type(ex).__name__}
+                raise
+            return {"built": True, "ev": ev, "extra": extra, "state": state, "types": types, "stdout": out.getvalue(), "raised": raised, "at": at,
+                    "scripted_calls": cur.get("scripted_calls", 0)}
         V = run(verbose_obj(case["verbose"]), "v")
         Q = run(False, "q")
     finally:
         shutil.rmtree(tmp, ignore_errors=True)
+    # audit 3 (B7): `verbose` is documented `bool`; the other forms (1, np.True_, 0-d array / tensor) are outside the documented forms:
+    # everything that depends on the run with such an object is recorded with ctx.info only
+    bool_form = case["verbose"] in ("True", "False")
+    # audit 3 (A): the whole-stream theorem C17_verbose_run_irrelevant_when_formattable is about the MetricEvaluator model only
+    th_v = TH_VERB if kind == "metric" else "C17_verbose_irrelevant_when_formattable_observable"
+    if not Q["built"] or not V["built"]:
+        bad = Q if not Q["built"] else V
+        if bad.get("patch"):
+            ctx.info(f"verbose/{kind}: scripted route into the evaluator (private attributes) could be installed", bad["exc"], None)
+        elif bad is V and Q["built"] and not bool_form:
+            ctx.info(f"verbose/{kind}: evaluator constructed with a non-bool verbose object ({case['verbose']})", bad["exc"], None)
+        else:
+            ctx.oracle("the evaluator can be constructed from its documented arguments (verbose a bool)", False, case,
+                       detail={"raised": bad["exc"]}, sig=f"{sig}/constructible", theorem=th_v)
+        return
     # formattability of every value that was computed (the interpreter's `format(v, ".6f")`: an input of the model)
     fmt = []
     all_ok = True
@@ -1566,13 +1641,28 @@ def verbose_case(ctx, case):
             all_ok = False
     if kind == "observable":
         fmt.append([-10, format(10, ".6f"), None])       # num_samples
+    scheduled = [e for e in epochs if e % p == 0]
+    if kind == "observable":
+        # audit 3 (B8): the scripted `system.statistics` is a private route: if the evaluator did not take it (never called although an
+        # evaluation was due) or the QUIET run (verbose=False, formattable values: nothing the model lets fail) raised, the route failed ->
+        # recorded, dependent points skipped
+        route_ok = not (scheduled and Q["scripted_calls"] == 0) and not (all_ok and Q["raised"] is not None)
+        ctx.info(f"verbose/{kind}: scripted route into the evaluator (private attributes) taken", route_ok, True)
+        if not route_ok:
+            return
     # ---- oracles on the implementation (twins)
     if Q["raised"] is None and all_ok:
-        ctx.oracle("verbose on/off twins: same records (len, epochs, last, history, CSV rows), no exception, whenever every value is formattable",
-                   V["raised"] is None and V["state"] == Q["state"], case,
-                   detail={"verbose": {k: V[k] for k in ("state", "raised", "at")}, "quiet": Q["state"]}, sig=f"{sig}/twins", theorem=TH_VERB)
+        twins_ok = V["raised"] is None and V["state"] == Q["state"]
+        if bool_form:
+            ctx.oracle("verbose on/off twins: same records (len, epochs, last, history, CSV rows), no exception, whenever every value is formattable",
+                       twins_ok, case,
+                       detail={"verbose": {k: V[k] for k in ("state", "raised", "at")}, "quiet": Q["state"]}, sig=f"{sig}/twins", theorem=th_v)
+        else:   # non-bool verbose object: outside the documented forms -> info
+            ctx.info(f"verbose/{kind}: twins with a non-bool verbose object", twins_ok, True)
+        # audit 3 (B14): Python type of the stored values (verbose on / off): recorded only
+        ctx.info(f"verbose/{kind}: twins store the same Python types", V["types"], Q["types"])
     else:
-        ctx.count(f"verbose:unformattable value met ({kind}): outside the property's values, effects compared with the model at aux level")
+        ctx.count(f"verbose:unformattable value met ({kind}): outside the property's values, effects recorded only (info)")
     if ctx.driver is None:
         return
     # ---- model
@@ -1582,7 +1672,6 @@ def verbose_case(ctx, case):
     tk = lambda i, s: tok_of.get((i, s), 0)  # noqa: E731
     if kind == "metric":
         args["vals"] = [[n, [tk(i, s) for i in range(E)]] for s, n in enumerate(case["names"])]
-        mnames = case["names"]
     else:
         obs, idents = V["extra"]
         mnames = []
@@ -1592,47 +1681,59 @@ def verbose_case(ctx, case):
             else:
                 mm = ctx.driver.call("c16.names", leaves=[idents[0]], expr=["add", ["neg", ["leaf", 0]], ["const", "int", 2]])
             mnames.append(mm.get("name"))
-        ctx.point("names of the observables handed to the evaluator", "property", [o.name for o in obs], mnames, case, exact=True,
-                  theorem="C17_columns_of_names, C16_name_of_build", sig=f"{sig}/obs-names")
-        args["obs"] = mnames
+        inames = [o.name for o in obs]
+        # audit 3 (B1): what an observable is CALLED is not constrained by C17 (nor C13 / C16): the model's names are recorded only, and the
+        # Lean op is fed the IMPLEMENTATION's names (o.name as given) so nothing below depends on how observables are called
+        ctx.info(f"{sig}/obs-names: names of the observables handed to the evaluator vs the model's names", inames, mnames)
+        args["obs"] = inames
         keys = []
-        for n in mnames:
+        for n in inames:
             if n not in keys:
                 keys.append(n)
-        args["stats"] = [[[k, [[st, tk(i, 3 * [x for x in mnames].index(k) + j)] for j, st in enumerate(("mean", "variance", "std_error"))]
+        args["stats"] = [[[k, [[st, tk(i, 3 * inames.index(k) + j)] for j, st in enumerate(("mean", "variance", "std_error"))]
                               + [["num_samples", -10]]] for k in keys] for i in range(E)]
         # duplicates: System keeps the LAST observable given with a name; the scripted statistics use the FIRST index of the name for the slot
     m = ctx.driver.call("c17.verbose", **args)
     val = lambda t: 10 if t == -10 else values.get(t)  # noqa: E731
     ev = V["ev"]
-    ctx.point("evaluator.names", "property", list(ev.names), m["names"], case, exact=True, theorem="C17_columns_of_names", sig=f"{sig}/names")
-    ctx.point("csv_fields (header of the CSV log)", "property", list(ev.csv_fields), m["fields"], case, exact=True, theorem="C17_columns_of_names",
-              sig=f"{sig}/fields")
-    # a value `{v:.6f}` cannot format is outside the property's values: whatever `verbose` is, the effects are compared at aux level then
-    lvl = "property" if all_ok else "aux"
-    th = TH_VERB if lvl == "property" else "C17_verbose_unformattable_partial, C17_verbose_unformattable_partial_observable, C17_verbose_identity_test"
+    # a value `{v:.6f}` cannot format is outside the property's values; a non-bool verbose object is outside the documented forms: info then
+    lvl = "property" if (all_ok and bool_form) else "info"
+    th = th_v
     # effects when EVERY value is formattable: property level.  With a value `{v:.6f}` cannot format (outside the property's values) the
     # partial effects left behind are recorded only (info), and so is everything printed: wording / chunking of stdout is not constrained
     def pt(name, impl, model, sg):
         if lvl == "property":
             ctx.point(name, "property", impl, model, case, exact=True, theorem=th, sig=f"{sig}/{sg}")
+        elif not bool_form:
+            ctx.info(f"verbose/{kind}/non-bool verbose object: {name}", impl, model)
         else:
             ctx.info(f"verbose/{kind}/unformattable value: {name}", impl, model)
+    # audit 3 (B8): the SET of names is what the per-name records are keyed by (property); the POSITION of a name / CSV column is not
+    # constrained by C17 (with duplicate names the docs only say the later one takes precedence): order recorded with ctx.info
+    pt("evaluator.names (as a set)", sorted(ev.names), sorted(m["names"]), "names")
+    ctx.info(f"{sig}/names: order of evaluator.names", list(ev.names), m["names"])
+    # `csv_fields` is an undocumented attribute: recorded only (the header of the CSV FILE is compared below, keyed by name)
+    ctx.info(f"{sig}/fields: csv_fields (header of the CSV log)", list(getattr(ev, "csv_fields", None) or []), m["fields"])
     pt("raised (an exception left on_epoch_end)", V["raised"] is not None, m["err"] is not None, "raised")
     pt("len and epochs", [V["state"]["len"], V["state"]["epochs"]], [m["len"], m["epochs"]], "epochs")
+    # audit 3 (B14): last / past_values by VALUE (value_only); the Python type of what is stored is recorded only
     if kind == "metric":
-        mlast = {k: value_canon(val(t)) for k, t in m["last"]}
-        mpast = [[e, {k: value_canon(val(t)) for k, t in d}] for e, d in m["past"]]
+        mk = lambda f: ({k: f(val(t)) for k, t in m["last"]}, [[e, {k: f(val(t)) for k, t in d}] for e, d in m["past"]])  # noqa: E731
     else:
-        mlast = {k: {s: value_canon(val(t)) for s, t in sd} for k, sd in m["last"]}
-        mpast = [[e, {k: {s: value_canon(val(t)) for s, t in sd} for k, sd in d}] for e, d in m["past"]]
+        mk = lambda f: ({k: {s: f(val(t)) for s, t in sd} for k, sd in m["last"]},  # noqa: E731
+                        [[e, {k: {s: f(val(t)) for s, t in sd} for k, sd in d}] for e, d in m["past"]])
+    mlast, mpast = mk(value_only)
+    tlast, tpast = mk(value_canon)
     pt("last", V["state"]["last"], mlast, "last")
     pt("past_values", V["state"]["past"], mpast, "past")
+    ctx.info(f"verbose/{kind}: Python types of the stored values (last, past_values)", [V["types"]["last"], V["types"]["past"]], [tlast, tpast])
     mrows = [csv_line([c["t"] if "t" in c else c["i"] if "i" in c else "" if "b" in c else val(c["v"]) for c in row]) for row in m["log"]]
-    pt("CSV rows (header + one row per completed evaluation)", V["state"]["csv"], mrows, "csv")
+    # audit 3 (B8): CSV compared as records keyed by column name, rows in epoch order; column order recorded only
+    pt("CSV rows (header names + one row per completed evaluation, cells by column name)", csv_by_name(V["state"]["csv"]), csv_by_name(mrows), "csv")
+    ctx.info(f"verbose/{kind}: CSV column order", V["state"]["csv"][:1], mrows[:1])
     ctx.info(f"verbose/{kind}: stdout (header / formatted line per evaluation, in order)", V["stdout"], "".join(m["out"]))
-    if lvl == "aux":
-        ctx.count(f"verbose:partial effects compared ({kind}; raised={V['raised']})")
+    if lvl != "property":
+        ctx.count(f"verbose:partial effects recorded ({kind}; raised={V['raised']})")
 
 
 def verbose_cases(ctx, n):
@@ -1669,7 +1770,17 @@ def logger_fn_case(ctx, case):
         args["logger_fn"] = handed.append
     elif case["fn"] == "noncallable":
         args["logger_fn"] = NONCALLABLE_OBJS[case["fn_obj"]]
-    lg = Logger(case["period"], **args, **kw)
+    # audit 3 (B7): msg_gen is documented `callable`: with a non-callable object a validating constructor may refuse -> constructed under
+    # try; for that form everything is recorded with ctx.info only
+    msg_documented = case["msg"] != "noncallable"
+    try:
+        lg = Logger(case["period"], **args, **kw)
+    except Exception as e:  # noqa: BLE001
+        if not msg_documented or case["fn"] == "noncallable":
+            ctx.info("logger_fn: Logger constructed with a non-callable msg_gen / logger_fn", type(e).__name__, None)
+            ctx.case({"logger_fn": {k: case[k] for k in ("period", "msg", "fn", "msg_obj", "fn_obj", "start", "epochs", "kwargs")}}, nontrivial=False)
+            return
+        raise
     buf = io.StringIO()
     raised = None
     with contextlib.redirect_stdout(buf):
@@ -1688,15 +1799,24 @@ def logger_fn_case(ctx, case):
     if case["fn"] != "noncallable":
         got = handed if case["fn"] == "callable" else printed
         other = printed if case["fn"] == "callable" else handed
-        ctx.oracle("logger: exactly one message per epoch that is a multiple of p (print -> one stdout line each), nothing elsewhere",
-                   raised is None and len(got) == len(sched) and other == [], cs, {"raised": raised, "got": got, "other": other, "scheduled": sched},
-                   sig=sig + "/count-oracle", theorem="C17_logger_fn_branches")
+        count_ok = raised is None and len(got) == len(sched) and other == []
+        if msg_documented:
+            ctx.oracle("logger: exactly one message per epoch that is a multiple of p (print -> one stdout line each), nothing elsewhere",
+                       count_ok, cs, {"raised": raised, "got": got, "other": other, "scheduled": sched},
+                       sig=sig + "/count-oracle", theorem="C17_logger_fn_branches")
+        else:   # audit 3 (B7): non-callable msg_gen is outside the documented `callable`: what the run does then is recorded only
+            ctx.info("logger_fn: non-callable msg_gen: one message per scheduled epoch (fallback to the default message)", count_ok, True)
         if case["msg"] == "callable":
             ctx.oracle("logger: the messages are msg_gen(state, e) of the scheduled epochs, in order", got == ["gen " + str(e) for e in sched], cs,
                        {"got": got}, sig=sig + "/epochs-oracle", theorem="C17_logger_fn_branches, C17_logger_msg_gen_fallback")
     if ctx.driver is not None:
         m = ctx.driver.call("c17.logger_fn", period=case["period"], msg=case["msg"], fn=case["fn"], kwargs_repr=str(kw), epochs=fired)
-        if case["fn"] != "noncallable":
+        if case["fn"] != "noncallable" and not msg_documented:
+            # audit 3 (B7): non-callable msg_gen (malformed input): model's fallback compared for the record only
+            ctx.info("logger_fn: non-callable msg_gen: number of messages handed / lines printed", [len(handed), len(printed), raised is not None],
+                     [len(m["handed"]), len(m["printed"]), m["err"] is not None])
+            ctx.info("logger_fn: non-callable msg_gen: message texts (handed, printed)", [handed, printed], [m["handed"], m["printed"]])
+        elif case["fn"] != "noncallable":
             ctx.point("logger_fn: number of messages handed / lines printed", "property", [len(handed), len(printed), raised is not None],
                       [len(m["handed"]), len(m["printed"]), m["err"] is not None], cs, exact=True, sig=sig + "/count", theorem="C17_logger_fn_branches")
             if case["msg"] == "callable":
